@@ -39,7 +39,7 @@ SPECIAL = [
     "-Conditional(Ge(x, 0.5), 1, 0)*p", "sqrt(Conditional(Ge(x, 0.5), 1, 0) + 1)", "Mod(x, 2) + Mod(-x, 3)", "pi*x", "log(abs(x) + 1) - ln(2)",
     "acos(x/(1 + abs(x)))", "ContinuousConditional(Gt(x, 0.5), 1, p, 0.1)", "x/3", "1/3*x", "(x + p)**2", "-(-x)", "x - (p - x)", "x/(p/x + 1)",
     "Conditional(Not(And(Gt(x, 0.2), Lt(x, 2))), 1, 2)", "Conditional(Not(Or(Gt(x, 2), Lt(p, 0))), 1, 2)", "Conditional(Not(Eq(x, x)), 1, 2)",
-    "Conditional(Eq(x, 1), p, x)", "Abs(x - p)", "exp(-x**2)", "tan(0.25*sin(x))", "atan(x) + asin(x/(2 + abs(x)))", "0.1 + 0.2", "3*0.1", "1e3", "2.5e-1*x",
+    "(J_a + (J_b - J_c))*1e-300", "J_a - (J_c - J_b*x)", "Conditional(Eq(x, 1), p, x)", "Abs(x - p)", "exp(-x**2)", "tan(0.25*sin(x))", "atan(x) + asin(x/(2 + abs(x)))", "0.1 + 0.2", "3*0.1", "1e3", "2.5e-1*x",
 ]
 
 
@@ -90,10 +90,17 @@ def check_ode(rep, drv, rng, ode, text, label, mirror_case=None):
         if sorted(ss) != sorted(ss2) or pn != pn2 or sorted(order) != sorted(order2):
             rep.violation("names differ after save / load", {"kind": "direct", "text": text, "saved": saved})
             return
-        for _ in range(3):
+        for k_pt in range(4):
             stv = {s: rng.randrange(-12, 13) / 8.0 for s in ss}
             pav = {p: rng.randrange(-12, 13) / 8.0 for p in pn}
             t = rng.choice([0.0, 0.5, 2.0])
+            if k_pt == 0:
+                # the declared values themselves (huge / tiny constants of a model live in its parameters)
+                try:
+                    stv = {s.name: float(s.value) for s in ode.states}
+                    pav = {p.name: float(p.value) for p in ode.parameters}
+                except Exception:  # noqa: BLE001
+                    pass
             with np.errstate(all="ignore"):
                 try:
                     a1 = dict(zip(order, map(float, n1["monitor_values"](t, np.array([stv[s] for s in ss]), np.array([pav[p] for p in pn])))))
@@ -163,11 +170,11 @@ def main(argv=None):
         drv.close()
         return rep.finish(level="proof", rule="replay of " + a.replay, trusted_base=["see the full check"])
     # ---- directed: constructs sympy normalises
-    specials = SPECIAL if a.tier != "quick" else rng.sample(SPECIAL, 14) + ["exp(1)", "Conditional(Not(Eq(x, x)), 1, 2)", "Conditional(Not(And(Gt(x, 0.2), Lt(x, 2))), 1, 2)", "Conditional(Not(Eq(x, p)), 1, 2)", "-Conditional(Ge(x, 0.5), 1, 0)*p", "6.02214076e23*1e-23*x", "1.23456789e-20*x*1e20"]
+    specials = SPECIAL if a.tier != "quick" else rng.sample(SPECIAL, 14) + ["exp(1)", "(J_a + (J_b - J_c))*1e-300", "Conditional(Not(Eq(x, x)), 1, 2)", "Conditional(Not(And(Gt(x, 0.2), Lt(x, 2))), 1, 2)", "Conditional(Not(Eq(x, p)), 1, 2)", "-Conditional(Ge(x, 0.5), 1, 0)*p", "6.02214076e23*1e-23*x", "1.23456789e-20*x*1e20"]
     for i in range(0, len(specials), 3):
         chunk = specials[i:i + 3]
         lines = [f"s{j} = {e}" for j, e in enumerate(chunk)]
-        text = ('states("A", x=0.5)\nstates(y=2)\nparameters("A", p=ScalarParam(1.5, unit="mV", description="a parameter"))\nparameters(q=0.25, N_A=6.02214076e23, tiny=1.23456789012e-30)\n'
+        text = ('states("A", x=0.5)\nstates(y=2)\nparameters("A", p=ScalarParam(1.5, unit="mV", description="a parameter"))\nparameters(q=0.25, N_A=6.02214076e23, tiny=1.23456789012e-30, J_a=1e308, J_b=1e308, J_c=1e308)\n'
                 + "\n".join(lines[1:]) + "\ndy_dt = -q*y + N_A*tiny*1e7 + " + " + ".join(f"s{j}" for j in range(len(chunk))) + '\nexpressions("A")\n' + lines[0] + "\ndx_dt = s0 - x*q\n")
         c = pipeline.Case(drv, text)
         rep.case(key=text, nontrivial=True)
